@@ -632,6 +632,9 @@ func checkHist(ca *checkArgs) int {
 		if nm := keysWithPrefix(total.stats.C, "new_method_driven_generically/"); len(nm) > 0 {
 			fmt.Printf("NOTE: exported methods outside the operation table were driven through reflection under the generic oracles only (no reference model): %v\n", nm)
 		}
+		if nf := undrivenAPI(); len(nf) > 0 {
+			fmt.Printf("NOTE: exported package-level functions and types that the simulator does not know were NOT exercised: %v\n", nf)
+		}
 		if nm := keysWithPrefix(total.stats.C, "unexercised_new_method/"); len(nm) > 0 {
 			fmt.Printf("NOTE: exported methods that are not in the operation table were NOT exercised: %v\n", nm)
 		}
@@ -986,7 +989,8 @@ func writeEvidence(ca *checkArgs, plan *histPlan, b *batch, perBuild map[string]
 		"known_findings_hit":                              len(b.known),
 		"exported_methods_driven_generically":             keysWithPrefix(b.stats.C, "new_method_driven_generically/"),
 		"exported_methods_not_in_operation_table":         keysWithPrefix(b.stats.C, "unexercised_new_method/"),
-		"replay_files":                                    replayFiles,
+		"exported_functions_and_types_not_driven":         undrivenAPI(),
+		"replay_files": replayFiles,
 		"components": map[string]interface{}{
 			"real":    []string{"the whole library (filippo.io/edwards25519 and field) built from /repo's working tree", "sync.Once"},
 			"stub":    []string{},
